@@ -29,6 +29,18 @@ class FNode2(FNode):
     """its printer does not take trailing_comment"""
 
 
+class FDictNode(FNode, dict):
+    """a dict subclass with the built-in repr (keys not in sorted order) and a printer of its own"""
+    __repr__ = dict.__repr__
+    __hash__ = object.__hash__
+
+    def __init__(self, tag, children):
+        FNode.__init__(self, tag, children)
+        dict.__init__(self)
+        self['zeta'] = tag
+        self['alpha'] = 0
+
+
 class ReprLeaf:
     def __init__(self, text):
         self.text = text
@@ -64,6 +76,11 @@ def pretty_fnode(value, ctx, trailing_comment=None):
 @register_pretty(FNode2)
 def pretty_fnode2(value, ctx):
     return _doc(value, ctx, None)
+
+
+@register_pretty(FDictNode)
+def pretty_fdict(value, ctx, trailing_comment=None):
+    return _doc(value, ctx, trailing_comment)
 
 
 class FLazyBase(FNode):
